@@ -276,7 +276,7 @@ theorem lex_inWord (acc w rest : List Char) (k : Kw) (hw : w.all isLetter = true
 
 theorem kwOf_lit (hc : c.ok = true) (k : Kw) : kwOf c (c.lit k) = some k := by
   simp only [Consts.ok, Bool.and_eq_true, decide_eq_true_eq] at hc
-  obtain ⟨⟨⟨_, h1⟩, h2⟩, h3⟩ := hc
+  obtain ⟨⟨⟨⟨_, h1⟩, h2⟩, h3⟩, _⟩ := hc
   cases k
   · simp [kwOf, Consts.lit]
   · simp [kwOf, Consts.lit, Ne.symm h1]
@@ -286,7 +286,7 @@ theorem lit_letters (hc : c.ok = true) (k : Kw) :
     (c.lit k).all isLetter = true ∧ c.lit k ≠ [] := by
   simp only [Consts.ok, Bool.and_eq_true, decide_eq_true_eq, Bool.not_eq_true',
     List.isEmpty_eq_false_iff] at hc
-  obtain ⟨⟨⟨⟨⟨⟨⟨⟨a1, a2⟩, a3⟩, b1⟩, b2⟩, b3⟩, _⟩, _⟩, _⟩ := hc
+  obtain ⟨⟨⟨⟨⟨⟨⟨⟨⟨a1, a2⟩, a3⟩, b1⟩, b2⟩, b3⟩, _⟩, _⟩, _⟩, _⟩ := hc
   cases k
   · exact ⟨a1, b1⟩
   · exact ⟨a2, b2⟩
@@ -305,5 +305,11 @@ theorem lex_kw (hc : c.ok = true) (k : Kw) (rest : List Char) (hr : Delim rest) 
     simp only [step, idleStep_letter hl.1]
     rw [lex_inWord c [x] r rest k hl.2 (by simpa using hk) hr]
     simp
+
+/-- in a mode with keyword keys the literals are Python's names -/
+theorem lit_kwStr (hc : c.ok = true) (hs : c.strKeys = false) (k : Kw) : c.lit k = kwStr k := by
+  simp only [Consts.ok, Bool.and_eq_true, hs, Bool.false_or, decide_eq_true_eq] at hc
+  obtain ⟨_, ⟨h1, h2⟩, h3⟩ := hc
+  cases k <;> simp [Consts.lit, h1, h2, h3]
 
 end PPrint
